@@ -79,6 +79,16 @@ def generate(rng, n, tier, stats):
             vs = rng.sample(pool, min(len(pool), rng.randint(1, 2))) if pool else [0]
             as_list = len(vs) > 1 or rng.random() < 0.5
             if rng.random() < 0.08: vs = []; as_list = True; stats['setna_empty_list']['yes'] += 1     # no value given: no cell changes
+            r = rng.random()
+            if vs and r < 0.2:
+                # a value listed twice still selects its cells
+                vs = vs + [rng.choice(vs)]; rng.shuffle(vs); as_list = True; stats['setna_repeated_value']['yes'] += 1
+            elif vs and r < 0.4:
+                # flag values together with a mask that overlaps them
+                mask = [(v in vs and rng.random() < 0.7) or rng.random() < 0.25 for v in a['flat']]
+                stats['setna_value_and_mask']['yes'] += 1
+                cases.append({'ins': [a], 'ops': [['setna_mixed', vs, mask]]})
+                continue
             cases.append({'ins': [a], 'ops': [['setna', vs, as_list]]})
         else:
             cases.append({'ins': [a], 'ops': [['setna_mask', [rng.random() < 0.4 for _ in a['flat']]]]})
@@ -144,10 +154,11 @@ def oracle(case, res):
                 if isinstance(y, dict) or float(y) != float(o[1]): return 'NaN cell holds %r, expected the fill value' % (y,)
             elif y != x and not (not isinstance(y, dict) and float(y) == float(x)): return 'non-NaN cell changed'
         return None
-    if o[0] == 'setna':
+    if o[0] in ('setna', 'setna_mixed'):
         vs = [float(x) for x in o[1]]
-        for x, y in zip(flat, rr['flat']):
-            hit = (not isinstance(x, dict)) and float(x) in vs
+        bits = o[2] if o[0] == 'setna_mixed' else [False] * len(flat)
+        for x, y, b in zip(flat, rr['flat'], bits):
+            hit = b or ((not isinstance(x, dict)) and float(x) in vs)
             if hit and y != {'nan': 1}: return 'cell equal to a listed value is %r, not NaN' % (y,)
             if not hit and y != x and not (not isinstance(y, dict) and not isinstance(x, dict) and float(y) == float(x)): return 'unlisted cell changed from %r to %r' % (x, y)
         return None
